@@ -30,6 +30,8 @@ class ObjMixin:
             raise Unsupported('class {} is decorated or has a metaclass'.format(cdef.name))
         for cname in self.class_mro(cdef.name):
             node = self.facts.classes[cname].node
+            if cname in self.model.attr_store_bases:
+                raise Unsupported('attributes of class {} are assigned at run time'.format(cname))
             if node.decorator_list or node.keywords:
                 raise Unsupported('class {} is decorated or has a metaclass'.format(cname))
             for s in node.body:
